@@ -29,7 +29,8 @@ ASSUMPTIONS = ['closed form judged for nli method gn_model_analytic only (as the
                'both channels; gamma(f)/gamma(f_ref) is taken from the fibre accessor, gamma(f_ref) from the user '
                'parameters', 'agreement 1e-9 relative per channel']
 REQUIRED_COUNTERS = {'compute_nli_calls_compared': 30, 'cube_law_checks': 30, 'order_checks': 30,
-                     'monotonic_checks': 30, 'snr_nli_after_fiber_checks': 30, 'recrossings_after_length_change': 20}
+                     'monotonic_checks': 30, 'snr_nli_after_fiber_checks': 30, 'recrossings_after_length_change': 20, 'twin_fibre_crossings': 20,
+                     'cases_with_ggn_only_options_set': 20}
 CASE_TIMEOUT = {'quick': 120, 'thorough': 300}
 
 _REC = attach.CallRecorder()
@@ -127,6 +128,17 @@ def run_case(case, ctx):
     SimParams.set_params({})
     attach.install()
     for rep in range(3):
+        # the options that restrict the computed channels belong to the generalised GN methods: with the analytic
+        # method every channel gets the closed form whatever they say
+        opt = G.pick(rng, [None, None, None, 'number', 'list'])
+        nli = {'method': 'gn_model_analytic'}
+        if opt == 'number':
+            nli['computed_number_of_channels'] = G.pick(rng, [1, 2, 3, 5])
+        elif opt == 'list':
+            nli['computed_channels'] = sorted(rng.sample(range(1, 8), rng.randint(1, 3)))
+        SimParams.set_params({'nli_params': nli} if opt else {})
+        if opt:
+            ctx.count('cases_with_ggn_only_options_set')
         fparams, fdefkw, fdesc = gen_fibre(rng)
         fiber = Fiber(uid='fibre under test', type_variety='SSMF', params=dict(fparams))
         fiber.ref_pch_in_dbm = 0.0
@@ -214,6 +226,47 @@ def run_case(case, ctx):
                                   f'length (rel dev {d2:.3e}; vs the old length {rel_dev(np.asarray(r2["ret"], dtype=float), ref):.3e})',
                                   {'fibre': fparams, 'new_length_m': new_len})
             fiber.params.length = fdef.length
+        # (1c) history: a twin fibre - another Fiber object with the same parameters except one - crossed by the same
+        # comb right afterwards in the same process: its NLI is its own closed form, not the first fibre's
+        if rng.random() < 0.35 and d <= 1e-9:
+            tp, tkw = dict(fparams), dict(fdefkw)
+            how = G.pick(rng, ['slope', 'slope', 'dispersion', 'loss', 'gamma'])
+            if how == 'slope' and 'dispersion_per_frequency' not in tp:
+                tp['dispersion'] = tkw['dispersion'] = tp.get('dispersion', 1.67e-05)
+                tp['dispersion_slope'] = tkw['dispersion_slope'] = G.pick(rng, [x for x in (58, 70, 45, 90)
+                                                                               if x != tp.get('dispersion_slope')])
+            elif how == 'dispersion' and 'dispersion_per_frequency' not in tp:
+                tp['dispersion'] = tkw['dispersion'] = tp.get('dispersion', 1.67e-05) * 1.3
+            elif how == 'loss' and not isinstance(tp['loss_coef'], dict):
+                tp['loss_coef'] = tkw['loss_db_km'] = round(tp['loss_coef'] + 0.013, 4)
+            elif how == 'gamma' and 'gamma' in tp:
+                tp['gamma'] = tkw['gamma'] = tp['gamma'] * 1.2
+            else:
+                tp['length'] = round(tp['length'] * 0.7, 4)
+                tkw['length_m'] = tp['length'] * 1e3
+            twin = Fiber(uid='twin fibre', type_variety='SSMF', params=dict(tp))
+            twin.ref_pch_in_dbm = 0.0
+            tdef = gn.FibreDef(**tkw)
+            tg = float(twin.gamma(tdef.f_ref))
+            tratio = [float(twin.gamma(f)) / tg for f in freqs]
+            _REC.clear()
+            _REC.start()
+            try:
+                twin(make_si(carriers, order=order))
+            finally:
+                _REC.stop()
+            recs3 = [r for r in _REC.records if r['name'] == 'compute_nli' and r['done']]
+            ctx.count('twin_fibre_crossings')
+            if len(recs3) == 1:
+                r3 = recs3[0]
+                ref3 = gn.gn_nli(tdef, r3['args']['frequency'].tolist(), r3['args']['baud_rate'].tolist(),
+                                 r3['args']['pch'].tolist(), gamma_ratio=[tratio[freqs.index(f)]
+                                                                         for f in r3['args']['frequency'].tolist()])
+                d3 = rel_dev(np.asarray(r3['ret'], dtype=float), ref3)
+                if d3 > 1e-9:
+                    ctx.violation('closed-form-twin-fibre', f'a second fibre that differs from the first one in its {how} '
+                                  f'only, crossed by the same comb: NLI differs from its own closed form (rel dev {d3:.3e})',
+                                  {'first': fparams, 'twin': tp})
         # launch power entering the fibre = launched / (con_in + att_in)
         att = 10 ** (-(fparams['con_in'] + fparams['att_in']) / 10)
         p_exp = np.sort(np.array(freqs)), None
